@@ -194,3 +194,112 @@ func c04r7(rc *core.RC) {
 		rc.OK(key, store.Pos(), "every path from c.structTypeToCode[%s] = … to a return without an error passes delete(c.structTypeToCode, %s) (%d return(s) behind it)", storeKey, storeKey, through)
 	}
 }
+
+// ---- C04.R8 every member the decoder makes for a field of its own honours the string option of the field's tag ----
+
+// The encoder quotes a member whose tag has the string option, whatever way the field came to be a member: declared
+// with a name, or embedded with a type that is no struct (type MyInt int embedded as `MyInt \`json:",string"\``),
+// directly or through a pointer. The decoder makes the member's field set in one branch of compileStruct for each of
+// these, and each has to wrap the decoder (newWrappedStringDecoder) when the tag says so; a branch that does not
+// cannot read what Marshal wrote for it. Obligation: in compileStruct every structFieldSet literal for a member of
+// the struct's own (key: field.Name or the tag's key) stands in a statement list that holds, in front of it, an if
+// on tag.IsString that calls newWrappedStringDecoder.
+func c04r8(rc *core.RC) {
+	p := rc.P
+	fd := p.Func("decoder", "compileStruct")
+	if fd == nil || fd.Body == nil {
+		rc.Unknown("decoder.compileStruct/string-option", token.NoPos, "compileStruct not found")
+		return
+	}
+	rc.Touch(p.FuncName(fd))
+	info := p.Info(fd)
+	var lists [][]ast.Stmt
+	ast.Inspect(fd.Body, func(m ast.Node) bool {
+		switch x := m.(type) {
+		case *ast.BlockStmt:
+			lists = append(lists, x.List)
+		case *ast.CaseClause:
+			lists = append(lists, x.Body)
+		}
+		return true
+	})
+	n := 0
+	for _, l := range lists {
+		for i, st := range l {
+			as, ok := st.(*ast.AssignStmt)
+			if !ok || len(as.Rhs) != 1 {
+				continue
+			}
+			u, isU := core.Unparen(as.Rhs[0]).(*ast.UnaryExpr)
+			if !isU {
+				continue
+			}
+			cl, isCL := core.Unparen(u.X).(*ast.CompositeLit)
+			if !isCL {
+				continue
+			}
+			if tv, has := info.Types[cl]; !has || !strings.HasSuffix(tv.Type.String(), "structFieldSet") {
+				continue
+			}
+			own := false
+			for _, e := range cl.Elts {
+				if kv, isKV := e.(*ast.KeyValueExpr); isKV {
+					if id, isID := kv.Key.(*ast.Ident); isID && id.Name == "key" {
+						// the member's own name: field.Name of the reflect.StructField, or a string local that is not
+						// taken from the key of a field set of another decoder (a promoted field)
+						switch v := core.Unparen(kv.Value).(type) {
+						case *ast.SelectorExpr:
+							if t := info.TypeOf(v.X); t != nil && t.String() == "reflect.StructField" && v.Sel.Name == "Name" {
+								own = true
+							}
+						case *ast.Ident:
+							promoted := false
+							if o := info.Uses[v]; o != nil {
+								ast.Inspect(fd.Body, func(q ast.Node) bool {
+									if a2, isAs := q.(*ast.AssignStmt); isAs && len(a2.Lhs) == len(a2.Rhs) {
+										for i2, l2 := range a2.Lhs {
+											if core.ObjOf(info, l2) == o {
+												if s2, isSel := core.Unparen(a2.Rhs[i2]).(*ast.SelectorExpr); isSel && s2.Sel.Name == "key" {
+													promoted = true
+												}
+											}
+										}
+									}
+									if rs, isR := q.(*ast.RangeStmt); isR && rs.Key != nil && core.ObjOf(info, rs.Key) == o {
+										promoted = true
+									}
+									return true
+								})
+							}
+							if !promoted {
+								own = true
+							}
+						}
+					}
+				}
+			}
+			if !own {
+				continue
+			}
+			n++
+			key := fmt.Sprintf("decoder.compileStruct/own-member#%d string-option-honoured", n)
+			wraps := false
+			for _, prev := range l[:i] {
+				ifs, isIf := prev.(*ast.IfStmt)
+				if !isIf || !strings.Contains(core.Src(p.Fset, ifs.Cond), "IsString") {
+					continue
+				}
+				ast.Inspect(ifs.Body, func(q ast.Node) bool {
+					if c, isCall := q.(*ast.CallExpr); isCall && core.CalleeName(info, c) == "decoder.newWrappedStringDecoder" {
+						wraps = true
+					}
+					return true
+				})
+			}
+			rc.Check(wraps, key, as.Pos(), "the decoder of this member is wrapped for the string option of its tag in front of the field set (the encoder quotes such a member; without the wrap Unmarshal cannot read what Marshal wrote: type MyInt int embedded as `MyInt `+\"`json:\\\",string\\\"`\"+``)")
+		}
+	}
+	if n < 3 {
+		rc.Unknown("decoder.compileStruct/string-option", fd.Pos(), "found %d field sets for members of the struct's own, fewer than the 3 confirmed by hand (a named field, an embedded non-struct type, an embedded pointer to one)", n)
+	}
+}
